@@ -108,8 +108,8 @@ def expect_error(sess, what, fn, oracle='I12.1', survey=False, own_type=True):
             from biogeme.exceptions import BiogemeError
             from ..core import _classify_exception as _ce
             if _ce(e)[0] != 'harness' and (not isinstance(e, BiogemeError) or len(str(e).strip()) < 10):
-                ctx.fail('I12.type', f'{what}: refused with {type(e).__name__}: {str(e)[:160]!r} instead of the '
-                                     f"library's own error type with an explanatory message")
+                ctx.violate('I12.type', f'{what}: refused with {type(e).__name__}: {str(e)[:160]!r} instead of the '
+                                        f"library's own error type with an explanatory message")
         from ..core import _classify_exception
         where, text = _classify_exception(e)
         if where == 'harness':
@@ -118,7 +118,9 @@ def expect_error(sess, what, fn, oracle='I12.1', survey=False, own_type=True):
         ctx.count(f'refused_as:{what.split(" planted")[0].split(":")[0][:34]}:{type(e).__name__}')
         engine = ENGINE_MARK in str(e) or type(e).__name__ == 'RuntimeError'
         return True, engine, e
-    ctx.fail(oracle, f'{what}: accepted and produced {str(out)[:120]!r}')
+    # (known findings are recorded and the session goes on as after an undecided clause)
+    ctx.violate(oracle, f'{what}: accepted and produced {str(out)[:120]!r}')
+    return False, False, None
 
 
 def recovery_probe(sess, after, engine=False):
@@ -160,6 +162,20 @@ def recovery_probe(sess, after, engine=False):
                           f'{type(ex_).__name__}: {str(ex_)[:200]}')
     sess.cmp('valid formula after a refused fault', list(got), want, oracle='I12.2')
     return True
+
+
+def _as_given(salt, formula):
+    """The two ways of handing a likelihood to a BIOGEME object: the formula itself, or a dictionary of formulas."""
+    which = (salt // 4) % 3
+    if which == 0:
+        return formula
+    if which == 1:
+        return {'log_like': formula}
+    return {'loglike': formula, 'weight': 1.0 + 0 * formula} if False else {'loglike': formula}
+
+
+def _as_given_name(salt):
+    return ['formula given as such', "dictionary {'log_like': formula}", "dictionary {'loglike': formula}"][(salt // 4) % 3]
 
 
 def _bad_avs(salt):
@@ -363,9 +379,10 @@ def apply_fault(sess, a):
             fb = ref.Builder(eb.beta_specs(), pool=sess.pool, share_elementary=False)
             inner = fb.build(['exp', ['*', ['num', -0.1], ['*', ['beta', 'b0'], ['var', 'c0']]]])
             e_ = ex.log(ex.PanelLikelihoodTrajectory(inner)) + fb.build(plant(base, path, ['var', 'c1']))
-            b = bio.BIOGEME(d, e_, parameters=params())
+            b = bio.BIOGEME(d, _as_given(salt, e_), parameters=params())
             return b.calculate_likelihood([0.1] * len(b.free_beta_names), scaled=False)
-        ok, engine, e = expect_error(sess, f'data variables outside the trajectory on panel data (formula {fi})', f)
+        ok, engine, e = expect_error(sess, f'data variables outside the trajectory on panel data (formula {fi}, '
+                                           f'{_as_given_name(salt)})', f)
     elif kind == 'panel_outside_mc':
         # on panel data, a data variable inside the Monte-Carlo operator but outside the trajectory
         t = sess.tables[dbi].copy().sort_values('ch', kind='stable').reset_index(drop=True)
@@ -379,9 +396,10 @@ def apply_fault(sess, a):
             e_ = ex.log(ex.MonteCarlo(ex.PanelLikelihoodTrajectory(inner) * ex.exp(0.01 * ex.Variable('c1'))))
             p_ = params()
             p_.set_value('number_of_draws', 4)
-            b = bio.BIOGEME(d, e_, parameters=p_)
+            b = bio.BIOGEME(d, _as_given(salt, e_), parameters=p_)
             return b.calculate_likelihood([0.1] * len(b.free_beta_names), scaled=False)
-        ok, engine, e = expect_error(sess, 'data variable inside MonteCarlo but outside the trajectory on panel data', f)
+        ok, engine, e = expect_error(sess, f'data variable inside MonteCarlo but outside the trajectory on panel data '
+                                           f'({_as_given_name(salt)})', f)
     elif kind == 'nests_overlap_far':
         from biogeme.nests import OneNestForNestedLogit, NestsForNestedLogit
         from biogeme import models
